@@ -916,6 +916,20 @@ func (h *sentPacketHandler) OnLossDetectionTimeout(now monotime.Time) error {
 	}
 	ps := h.getPacketNumberSpace(encLevel)
 	if !ps.history.HasOutstandingPackets() && !ps.history.HasOutstandingPathProbes() && !h.peerCompletedAddressValidation {
+		// Nothing is outstanding in the space the timer was armed for: the bytes in flight are 0-RTT
+		// packets, for which no PTO is armed before the handshake is confirmed. The server may be
+		// blocked by the amplification limit, or the acknowledgment of the 0-RTT packets may have been
+		// lost while they fill the congestion window, so that neither side can send. The client has to
+		// send an anti-deadlock probe here, exactly as it does with nothing in flight at all
+		// (RFC 9002, section 6.2.2.1); a probe is not subject to congestion control and carries new
+		// CRYPTO data (the client's Finished) if there is any.
+		h.ptoCount++
+		h.numProbesToSend++
+		if encLevel == protocol.EncryptionInitial {
+			h.ptoMode = SendPTOInitial
+		} else {
+			h.ptoMode = SendPTOHandshake
+		}
 		return nil
 	}
 	h.ptoCount++
